@@ -78,7 +78,15 @@ func genBBCase(t *rapid.T) bbCase {
 		u := c.Users[rapid.IntRange(0, len(c.Users)-1).Draw(t, "u")]
 		p := bbProbe{User: u.Name, PW: u.PW, Kind: "right", Frontend: rapid.SampledFrom(bbFrontends).Draw(t, "frontend"),
 			Realm: rapid.SampledFrom([]string{"", "@example.org", "@a@b"}).Draw(t, "realm"), Split: rapid.IntRange(1, 40).Draw(t, "split")}
-		switch rapid.IntRange(0, 7).Draw(t, "variant") {
+		switch rapid.IntRange(0, 9).Draw(t, "variant") {
+		case 8, 9:
+			ctl := rapid.SampledFrom([]string{"\x00", "\n", "\r", "\x7f", "\xc2\x85", "\t", " ", "\x1b"}).Draw(t, "ctl")
+			if rapid.Bool().Draw(t, "ctlend") {
+				p.User = u.Name + ctl
+			} else {
+				p.User = u.Name[:len(u.Name)/2] + ctl + u.Name[len(u.Name)/2:]
+			}
+			p.Kind = "user-with-control-byte"
 		case 0:
 			p.PW, p.Kind = u.PW+" ", "trailing-space"
 		case 1:
@@ -257,6 +265,9 @@ func TestC04Binary(t *testing.T) {
 					continue
 				}
 				u := c.Users[m.User]
+				if _, exists := cur[u.Name]; !exists {
+					continue // removed by an earlier management step
+				}
 				if len(u.Name) > 100 || strings.ContainsAny(cur[u.Name], "\x00") || !utf8.ValidString(cur[u.Name]) || strings.HasPrefix(cur[u.Name], "-") {
 					vlib.Excluded("management step on a user whose name/password the CLI or JSON cannot carry")
 					continue
